@@ -163,3 +163,18 @@ Definition rect (fr:frame) (names:list name) : Prop :=
 Definition spec_pandas (fr:frame) (rf:option (list bool)) (cf:colfilter) : list (name * list cell) :=
   let names := match cf with CF_none => keys fr | CF_str n => [n] | CF_list l => l end in
   dedup_names [] (map (fun n => (n, select_opt rf (column fr n))) names).
+
+(* arguments on which to_pandas is defined: the names exist, a list / absent column filter names
+   columns of one length, the mask has the length of every requested column (or length 0) *)
+Definition pandas_valid (fr:frame) (rf:option (list bool)) (cf:colfilter) : bool :=
+  let names := match cf with CF_none => keys fr | CF_str n => [n] | CF_list l => l end in
+  forallb (has fr) names
+  && match cf, names with
+     | CF_str _, _ => true
+     | _, [] => true
+     | _, k0 :: _ => forallb (fun k => len (column fr k) =? len (column fr k0)) names
+     end
+  && match rf with
+     | None => true
+     | Some m => (len m =? 0) || forallb (fun k => len (column fr k) =? len m) names
+     end.
